@@ -13,7 +13,7 @@ from mc import codec
 from mc.report import add_sample, add_violation, count, new_part
 
 LEVEL = "exploration"
-RULE = ("route in {direct, text, sdk} x flavour x class x operand field x out-of-range value (just outside: max+1, min-1; "
+RULE = ("route in {direct, direct after an earlier encoding of the same objects, text, sdk} x flavour x class x operand field x out-of-range value (just outside: max+1, min-1; "
         "far outside: 2*max, 1000, +-2^40) x two backgrounds for the other fields; header: app id / version bytes outside "
         "their widths; oracle: bytes() raises or deserialize(bytes) equals the requested program; distinct = distinct "
         "(route, flavour, mnemonic, field, value, background); every case is non-trivial (it has an unrepresentable operand)")
@@ -71,6 +71,24 @@ def _field_kind_name(kinds, leaf_pos):
     raise AssertionError
 
 
+def _mutate_to(instr, fresh) -> bool:
+    """change instr's operands in place to those of fresh (as the assembler and the transpiler do); False if immutable"""
+    import dataclasses
+    from netqasm.lang.operand import ArrayEntry, ArraySlice
+    try:
+        for fd in dataclasses.fields(type(instr))[3:]:
+            cur, new = getattr(instr, fd.name), getattr(fresh, fd.name)
+            if isinstance(cur, (ArrayEntry, ArraySlice)):
+                for attr in ("address", "index", "start", "stop"):
+                    if hasattr(cur, attr):
+                        setattr(cur, attr, getattr(new, attr))
+            else:
+                setattr(instr, fd.name, new)
+    except (AttributeError, TypeError):
+        return False
+    return True
+
+
 def shard_direct(shard):
     from netqasm.lang.subroutine import Subroutine
     _, flav, mn = shard
@@ -96,6 +114,21 @@ def shard_direct(shard):
                     count(part, f"rejected/direct/{what}")
                     continue
                 judge("direct", what, sub, flav, case, part)
+                # the same unrepresentable program reached by changing, in place, the operands of an instruction that has been
+                # encoded (and printed) before: a range check must look at the operands the instruction has NOW
+                part["evals"] += 1
+                part["distinct"] += 1
+                try:
+                    old = codec.make_instr(cls, kinds, bg)
+                    sub2 = Subroutine(instructions=[old], app_id=1, netqasm_version=(0, 0))
+                    bytes(sub2), str(sub2), old.serialize()
+                    if not _mutate_to(old, instr):
+                        count(part, "operands-immutable")
+                        continue
+                except Exception:
+                    count(part, f"rejected/direct-after-encode/{what}")
+                    continue
+                judge("direct-after-encode", what, sub2, flav, dict(case, route="direct-after-encode"), part)
     count(part, f"class-explored/{flav}")
     if mn in ("set", "rot_x", "store"):
         add_sample(part, {"route": "direct", "flavour": flav, "mnemonic": mn, "field": 0, "value": OOR[lk[0]][0]})
@@ -112,7 +145,8 @@ def shard_header(shard):
             part["distinct"] += 1
             instr = codec.make_instr(cls, ["reg", "int32"], [(0, 1), 5])
             # three ways an app id reaches the header: constructor, property setter, instantiate()
-            for how in ("constructor", "setter", "instantiate", "instantiate-over-valid-id"):
+            for how in ("constructor", "setter", "instantiate", "instantiate-over-valid-id", "setter-after-encode",
+                        "instantiate-after-encode"):
                 part["evals"] += 1
                 part["distinct"] += 1
                 case = {"route": "direct", "header": "app_id", "how": how, "app_id": app_id, "version": list(ver)}
@@ -125,9 +159,16 @@ def shard_header(shard):
                     elif how == "instantiate":
                         sub = Subroutine(instructions=[instr], app_id=None, netqasm_version=ver)
                         sub.instantiate(app_id, {})
-                    else:
+                    elif how == "instantiate-over-valid-id":
                         sub = Subroutine(instructions=[instr], app_id=7, netqasm_version=ver)
                         sub.instantiate(app_id, {})
+                    else:
+                        sub = Subroutine(instructions=[instr], app_id=7, netqasm_version=ver)
+                        bytes(sub), str(sub), len(sub)
+                        if how == "setter-after-encode":
+                            sub.app_id = app_id
+                        else:
+                            sub.instantiate(app_id, {})
                 except Exception:
                     count(part, "rejected/direct/app-id")
                     continue
